@@ -698,19 +698,21 @@ fn convert_rpx_in_block(
                             let start = cssparser::Parser::position(input);
                             // cssparser computes the code points without an overflow check:
                             // look ahead and only hand it hex digit runs of a valid length
-                            let state = cssparser::Parser::state(input);
                             loop {
                                 let before = cssparser::Parser::state(input);
-                                match cssparser::Parser::next_including_whitespace(input) {
+                                let before_pos = cssparser::Parser::position(input);
+                                let part_of_range = matches!(
+                                    cssparser::Parser::next_including_whitespace(input),
                                     Ok(Token::Ident(_))
-                                    | Ok(Token::Number { .. })
-                                    | Ok(Token::Dimension { .. })
-                                    | Ok(Token::Delim('+'))
-                                    | Ok(Token::Delim('?')) => {}
-                                    _ => {
-                                        cssparser::Parser::reset(input, &before);
-                                        break;
-                                    }
+                                        | Ok(Token::Number { .. })
+                                        | Ok(Token::Dimension { .. })
+                                        | Ok(Token::Delim('+'))
+                                        | Ok(Token::Delim('?'))
+                                );
+                                // a comment ends the range like whitespace does (the tokenizer skips it silently)
+                                if !part_of_range || input.slice_from(before_pos).starts_with("/*") {
+                                    cssparser::Parser::reset(input, &before);
+                                    break;
                                 }
                             }
                             let text = input.slice_from(start);
@@ -720,16 +722,21 @@ fn convert_rpx_in_block(
                                 }
                                 _ => false,
                             };
-                            cssparser::Parser::reset(input, &state);
-                            if !valid_len {
+                            // the run is parsed on its own: what follows it, even after a comment, is not part of it
+                            let valid = valid_len && {
+                                let mut range_input = cssparser::ParserInput::new(text);
+                                let mut range_parser = cssparser::Parser::new(&mut range_input);
+                                cssparser::UnicodeRange::parse(&mut range_parser).is_ok()
+                                    && range_parser.is_exhausted()
+                            };
+                            if !valid {
                                 let err = cssparser::Parser::new_basic_unexpected_token_error(
                                     input,
                                     Token::Ident("u".into()),
                                 );
                                 return Err(err);
                             }
-                            cssparser::UnicodeRange::parse(input)?;
-                            Ok::<_, cssparser::BasicParseError>(input.slice_from(start).to_string())
+                            Ok::<_, cssparser::BasicParseError>(text.to_string())
                         });
                         if let Ok(s) = unicode_range {
                             ss.current_output_mut()
